@@ -1,5 +1,6 @@
 SPECIFICATION Spec
 CONSTANTS Devs = {}
-          Cases <- MHand
+          Cases <- MCSel
+          Family = "MHand"
 INVARIANTS TypeOK VisitedSafe VisitedExact DepthShortest FetchedExact LocalExact HandlerCidRight
            HandlerCallsRight ProvidedExact ResultRight NoHandlerCrash
